@@ -44,19 +44,20 @@ structure AllRel (bad : Res) (f m f' m' : Nat) : Prop where
 /-- Synchronise a pair of sub-calls: `h : Rel bad p p'` with `p`, `p'` variables of the goal
 `Rel bad (K p) (K' p')`.  Closes the case where `p` ended with `bad` (the continuation passes
 it on) and leaves the goal `Rel bad (K (s, r)) (K' (s, r))`. -/
-syntax "sync " ident ident " using " ident ident " with " ident ident : tactic
+syntax "sync " ident ident " using " ident ident : tactic
 macro_rules
-  | `(tactic| sync $p $h using $bad $hbad with $s $r) => `(tactic|
-      (obtain ⟨$s:ident, $r:ident⟩ := $p
-       by_cases hr : $r = $bad
-       · subst hr
+  | `(tactic| sync $p $h using $bad $hbad) => `(tactic|
+      (by_cases hr : Prod.snd $p = $bad
+       · obtain ⟨s, r⟩ := $p
+         dsimp only at hr
+         subst hr
          intro hh
          exfalso
          apply hh
          rcases $hbad:ident with e | e <;> subst e <;> rfl
        have e := $h hr
        subst e
-       clear $h))
+       clear hr $h))
 
 theorem rel_limit_test {bad : Res} {c c' : Prop} [Decidable c] [Decidable c'] {l x y : State × Res}
     (h1 : c' → c) (h2 : c → ¬ c' → l.2 = bad) (h : Rel bad x y) :
@@ -78,7 +79,7 @@ theorem step_execOne {bad : Res} {f m f' m' : Nat} (hbad : Passed bad) (ih : All
     · have h1 := ih.body { s with execDepth := s.execDepth + 1, hiDepth := max s.hiDepth (s.execDepth + 1) } o true
       generalize execBody f m _ o true = p1 at h1 ⊢
       generalize execBody f' m' _ o true = p1' at h1 ⊢
-      sync p1 h1 using bad hbad with s1 r1
+      sync p1 h1 using bad hbad
       exact Rel.rfl' _
   · exact ih.body s o false
 
@@ -112,10 +113,23 @@ theorem step_execTail {bad : Res} {f m f' m' : Nat} (hbad : Passed bad) (hm : Bu
       have h1 := ih.call s' id
       generalize callBuiltin f m s' id = p1 at h1 ⊢
       generalize callBuiltin f' m' s' id = p1' at h1 ⊢
-      sync p1 h1 using bad hbad with s1 r1
+      sync p1 h1 using bad hbad
       split
-      trace_state
-      sorry
+      rename_i s1 r1
+      split
+      · rename_i name
+        split
+        · dsimp only
+          split
+          · rename_i handler _
+            have h3 := ih.one { s1 with errors := name :: s1.errors, hiErrors := max s1.hiErrors (s1.errors.length + 1) } handler true
+            generalize execOne f m _ handler true = p3 at h3 ⊢
+            generalize execOne f' m' _ handler true = p3' at h3 ⊢
+            sync p3 h3 using bad hbad
+            exact Rel.rfl' _
+          · exact Rel.rfl' _
+        · exact Rel.rfl' _
+      · exact Rel.rfl' _
     · sorry
     · sorry
 
